@@ -83,6 +83,29 @@ func init() {
 		add(fmt.Sprintf("S3 d<=1 static3 (every %d. position; all faults, truncations, pull-only, nested submissions/deliveries, empty/binary/duplicate transactions)", stride),
 			s3Items(scStatic3, 1, seedPositions(scStatic3, 0, 0, stride), alpha, mons, 40))
 		add("S3 d<=1 join3to4 (every 4th position, level 0)", s3Items(scJoin3, 1, seedPositions(scJoin3, 1, 0, 4), devAlphabet(nodesOf(4), 0, 0), mons, 40))
+		// transactions accepted by a node that then fast-forwards (a catching-up joiner; a validator restarted empty)
+		{
+			var ffItems []sched.Item
+			ffPositions := []int{28, 44, 60}
+			if th {
+				ffPositions = []int{24, 28, 36, 44, 52, 60, 76}
+			}
+			for _, ffpos := range ffPositions {
+				name := fmt.Sprintf("ffjoin:3:5:110:%d:0:0", ffpos)
+				var devs []sched.Dev
+				for _, k := range []string{"T", "TD", "TE"} {
+					devs = append(devs, sched.Dev{Alt: sched.Action{K: k, A: 3}, Ins: true})
+				}
+				// the joiner exists from seed position 7 on; submissions before, at and after the fast-forward
+				ffItems = append(ffItems, s3Items(name, 1, []int{8, ffpos - 6, ffpos + 1, ffpos + 2, ffpos + 8}, devs, mons, 40)...)
+			}
+			for _, ffpos := range []int{30, 44} {
+				name := fmt.Sprintf("ffrestart:4:80:3:20:%d:0", ffpos)
+				devs := []sched.Dev{{Alt: sched.Action{K: "T", A: 3}, Ins: true}}
+				ffItems = append(ffItems, s3Items(name, 1, []int{ffpos, ffpos + 1}, devs, mons, 40)...)
+			}
+			add("submissions at a node before / around its fast-forward (joiner with fast-sync; validator restarted empty)", ffItems)
+		}
 		if th {
 			// two faults/shapes in one run around the first commits
 			small := []sched.Dev{}
